@@ -113,6 +113,8 @@ pub enum XEntry {
 }
 
 pub struct Builder {
+    /// no white space between `obj` and a body that starts with a delimiter (`4 0 obj[...]`, `5 0 obj(...)`, `6 0 obj<<...>>`): valid per ISO 32000-1 7.2.2
+    pub compact_obj: bool,
     pub out: Vec<u8>,
     pub pending: BTreeMap<u32, XEntry>,
     pub prev: Option<usize>,
@@ -135,7 +137,7 @@ impl Builder {
         let mut out = Vec::new();
         out.extend_from_slice(format!("%PDF-{version}\n").as_bytes());
         out.extend_from_slice(b"%\xE2\xE3\xCF\xD3\n");
-        Builder { out, pending: BTreeMap::new(), prev: None, size: 1, style: StrStyle::Literal, crypt: None, encrypt_obj: None, revisions: 0, iv_counter: 0 }
+        Builder { out, pending: BTreeMap::new(), prev: None, size: 1, style: StrStyle::Literal, crypt: None, encrypt_obj: None, revisions: 0, iv_counter: 0, compact_obj: false }
     }
 
     /// Continue an existing file (append revisions to bytes produced elsewhere).
@@ -144,7 +146,7 @@ impl Builder {
         if !out.ends_with(b"\n") {
             out.push(b'\n');
         }
-        Builder { out, pending: BTreeMap::new(), prev: Some(prev_startxref), size, style: StrStyle::Literal, crypt: None, encrypt_obj: None, revisions: 1, iv_counter: 0 }
+        Builder { out, pending: BTreeMap::new(), prev: Some(prev_startxref), size, style: StrStyle::Literal, crypt: None, encrypt_obj: None, revisions: 1, iv_counter: 0, compact_obj: false }
     }
 
     fn next_iv(&mut self, n: u32) -> [u8; 16] {
@@ -180,6 +182,7 @@ impl Builder {
         let off = self.out.len();
         self.pending.insert(n, XEntry::InUse { off, gen: g });
         let _ = write!(self.out, "{n} {g} obj\n");
+        let body_at = self.out.len();
         match o {
             Obj::Stream(s) => {
                 let is_xref = s.dict.name(b"Type") == Some(b"XRef");
@@ -203,6 +206,9 @@ impl Builder {
                 let e = self.enc_obj(n, g, other);
                 write_obj(&e, self.style, &mut self.out);
             }
+        }
+        if self.compact_obj && matches!(self.out.get(body_at), Some(b'[' | b'(' | b'<' | b'/')) {
+            self.out.remove(body_at - 1);
         }
         self.out.extend_from_slice(b"\nendobj\n");
     }
